@@ -223,6 +223,21 @@ pub fn truncation(tier: &str) -> Result<String, String> {
                 } }
         }
     }
+    // ---- the eager routes of the raw record streams (bam / bcf Reader::record_bufs): same demands (F62)
+    { let (file, _) = write_variant(VF::Bcf, None, &vh, &vrecs)?; if let Some(marks) = bcf_marks(&file) {
+        for c in cuts(file.len(), &marks, tier) { log.cases += 1;
+            let r = std::panic::catch_unwind(std::panic::AssertUnwindSafe(|| -> (usize, Option<String>) { let mut rd = noodles_bcf::io::Reader::from(&file[..c]); let h = match rd.read_header() { Ok(h) => h, Err(e) => return (0, Some(format!("header: {e}"))) }; let mut n = 0; for r in rd.record_bufs(&h) { match r { Ok(_) => n += 1, Err(e) => return (n, Some(e.to_string())) } if n > vrecs.len() + 5 { return (n, Some("(more records than were written)".into())); } } (n, None) }));
+            match r { Err(_) => log.fail("raw BCF record_bufs panic".into(), || format!("raw BCF stream (record_bufs) cut at {c} of {}: the reader PANICS", file.len())),
+                Ok((n, end)) => { let complete = marks.iter().filter(|m| **m <= c).count().saturating_sub(1);
+                    if n > complete { log.fail("raw BCF record_bufs fabricated".into(), || format!("raw BCF stream (record_bufs) cut at {c} of {}: {n} records are returned but only {complete} are complete", file.len())); }
+                    if c >= marks[0] && !marks.contains(&c) && end.is_none() { log.fail("raw BCF record_bufs clean end inside a record".into(), || format!("raw BCF stream (record_bufs) cut at {c} of {} (inside record {complete}): the reader reports a clean end of input after {n} records", file.len())); } } } } } }
+    { let (file, _) = write_alignment(AF::Bam, None, &ah, &arecs)?; if let Some(marks) = bam_marks(&file) {
+        for c in cuts(file.len(), &marks, tier) { log.cases += 1;
+            let r = std::panic::catch_unwind(std::panic::AssertUnwindSafe(|| -> (usize, Option<String>) { let mut rd = noodles_bam::io::Reader::from(&file[..c]); let h = match rd.read_header() { Ok(h) => h, Err(e) => return (0, Some(format!("header: {e}"))) }; let mut n = 0; for r in rd.record_bufs(&h) { match r { Ok(_) => n += 1, Err(e) => return (n, Some(e.to_string())) } if n > arecs.len() + 5 { return (n, Some("(more records than were written)".into())); } } (n, None) }));
+            match r { Err(_) => log.fail("raw BAM record_bufs panic".into(), || format!("raw BAM stream (record_bufs) cut at {c} of {}: the reader PANICS", file.len())),
+                Ok((n, end)) => { let complete = marks.iter().filter(|m| **m <= c).count().saturating_sub(1);
+                    if n > complete { log.fail("raw BAM record_bufs fabricated".into(), || format!("raw BAM stream (record_bufs) cut at {c} of {}: {n} records are returned but only {complete} are complete", file.len())); }
+                    if c >= marks[0] && !marks.contains(&c) && end.is_none() { log.fail("raw BAM record_bufs clean end inside a record".into(), || format!("raw BAM stream (record_bufs) cut at {c} of {} (inside record {complete}): the reader reports a clean end of input after {n} records", file.len())); } } } } } }
     // ---- binary index files (gzi, BAI, CSI, tabix): a cut file is an error, or — when only the optional trailing count of unplaced
     // unmapped records is missing — the SAME index without that count; never an index with fewer bins, intervals or references
     for (name, file, _, run) in crate::chunked::targets()?.iter().filter(|t| ["gzi index", "BAI index", "CSI index", "tabix index"].contains(&t.0)) {
